@@ -59,7 +59,40 @@ def _sparse_stream(ctx: Ctx):
                                                cbool(df), clist(cstr(str(x)) for x in lv),
                                                clist(clist(f"({a}%nat, {qc(b)})" for a, b in col) for col in cols))
             ctx.count("sparse", "dummies")
-        elif r < 0.8:
+        elif r < 0.6:
+            # the real PandasMaterializer._get_columns_for_term on synthetic CSC factor columns (one to four factors, single-column factors are
+            # pre-multiplied by the implementation), against the model's sparse Kronecker product
+            import pandas as pd
+            from formulaic import ModelSpec
+            from formulaic.materializers import PandasMaterializer
+            n = rng.randint(1, 6)
+            nf = rng.randint(1, 4)
+            scale = float(rng.choice([1, 1, 2, 0.5, -3]))
+            factors, flit = [], []
+            for fi in range(nf):
+                ncols = rng.choice([1, 1, 2, 3])
+                fac, cl = {}, []
+                for ci in range(ncols):
+                    rows = sorted(rng.sample(range(n), rng.randint(0, n)))
+                    vals = [float(rng.choice([v for v in M.VALS if v != 0])) for _ in rows]
+                    name = "f%d" % fi if ncols == 1 else "f%d[%s]" % (fi, "xyz"[ci])
+                    fac[name] = sp.csc_matrix((vals, (rows, [0] * len(rows))), shape=(n, 1))
+                    cl.append("(%s, %s)" % (cstr(name), clist(f"({a}%nat, {qc(b)})" for a, b in zip(rows, vals))))
+                factors.append(fac)
+                flit.append(clist(cl))
+            mat = PandasMaterializer(pd.DataFrame({"_": [0.0] * n}))
+            try:
+                out = mat._get_columns_for_term([dict(f) for f in factors], ModelSpec(formula=[], output="sparse"), scale)
+            except Exception as e:
+                ctx.fail(f"_get_columns_for_term (sparse) raised {type(e).__name__}: {e}", {"kind": "sparse-term", "factors": [list(f) for f in factors]})
+                continue
+            exp = []
+            for name, col in out.items():
+                c = sp.csc_matrix(col).tocoo()
+                exp.append("(%s, %s)" % (cstr(name), clist(f"({a}%nat, {qc(b)})" for a, b in sorted(zip(c.row.tolist(), c.data.tolist())))))
+            lit = "STerm %s %s %s" % (qc(scale), clist(flit), clist(exp))
+            ctx.count("sparse", "term nf=%d" % nf)
+        elif r < 0.85:
             n = rng.randint(1, 8)
 
             def col():
